@@ -67,6 +67,159 @@ theorem boxed_refs_acyclic (deps : List (Name × List Name)) :
     have := (cyclic_spec deps b false h.2).2 hc
     cases this
 
+/-! ## the emitted type graph: every cycle passes through an indirection -/
+
+/-- by-value containment between emitted types (entry-wise: also when a name is defined twice) -/
+def HoldsByValue (g : EGraph) (a b : Name) : Prop := ∃ p ∈ valueDeps g, p.1 = a ∧ b ∈ p.2
+
+theorem rankOk_spec (d : List (Name × List Name)) (r : Name → Nat) (h : rankOk d r = true) :
+    ∀ p ∈ d, ∀ b ∈ p.2, r b < r p.1 := by
+  intro p hp b hb
+  unfold rankOk at h
+  rw [List.all_eq_true] at h
+  have h1 := h p hp
+  rw [List.all_eq_true] at h1
+  simpa using h1 b hb
+
+/-- a relation that admits a strictly decreasing rank has no cycle … -/
+theorem ranked_no_cycle {α : Type} {r : α → α → Prop} (rank : α → Nat)
+    (hr : ∀ a b, r a b → rank b < rank a) : ∀ v, ¬ OnCycle r v := by
+  have key : ∀ a b, TC r a b → rank b < rank a := by
+    intro a b h
+    induction h with
+    | base h => exact hr _ _ h
+    | step h _ ih => exact Nat.lt_trans ih (hr _ _ h)
+  intro v hv
+  exact Nat.lt_irrefl _ (key v v hv)
+
+/-- … and every descent along it ends: the size of a type is a well-founded recursion over what it holds by
+value (this is what rustc's layout computation needs) -/
+theorem ranked_wf {α : Type} {r : α → α → Prop} (rank : α → Nat)
+    (hr : ∀ a b, r a b → rank b < rank a) : ∀ v, Acc (fun b a => r a b) v := by
+  have key : ∀ n v, rank v < n → Acc (fun b a => r a b) v := by
+    intro n
+    induction n with
+    | zero => intro v h; exact absurd h (Nat.not_lt_zero _)
+    | succ n ih =>
+      intro v hv
+      refine Acc.intro v ?_
+      intro b hb
+      exact ih b (Nat.lt_of_lt_of_le (hr v b hb) (Nat.le_of_lt_succ hv))
+  intro v
+  exact key (rank v + 1) v (Nat.lt_succ_self _)
+
+/-- soundness of the decidable predicate w.r.t. finite size: it yields a layout order -/
+theorem emitted_cycle_has_indirection_sound (g : EGraph) (h : emittedCycleHasIndirection g = true) :
+    ∃ rank : Name → Nat, ∀ a b, HoldsByValue g a b → rank b < rank a := by
+  refine ⟨layoutRank g, ?_⟩
+  rintro a b ⟨p, hp, rfl, hb⟩
+  exact rankOk_spec _ _ h p hp b hb
+
+theorem emitted_cycle_has_indirection_no_cycle (g : EGraph) (h : emittedCycleHasIndirection g = true) :
+    ∀ v, ¬ OnCycle (HoldsByValue g) v := by
+  obtain ⟨rank, hr⟩ := emitted_cycle_has_indirection_sound g h
+  exact ranked_no_cycle rank hr
+
+theorem emitted_cycle_has_indirection_finite_size (g : EGraph) (h : emittedCycleHasIndirection g = true) :
+    ∀ v, Acc (fun b a => HoldsByValue g a b) v := by
+  obtain ⟨rank, hr⟩ := emitted_cycle_has_indirection_sound g h
+  exact ranked_wf rank hr
+
+theorem edge_holdsByValue (g : EGraph) (a b : Name) (h : Edge (valueDeps g) a b) : HoldsByValue g a b := by
+  unfold Edge succ at h
+  split at h
+  · rename_i p hp
+    have hm := List.mem_of_find?_eq_some hp
+    have he := List.find?_some hp
+    exact ⟨p, hm, by simpa using he, h⟩
+  · cases h
+
+/-- the two tests of the judge agree in the direction that matters: with a rank certificate the cycle test
+(`cyclic` on the by-value edges) finds nothing -/
+theorem sizeCycles_empty_of_indirection (g : EGraph) (h : emittedCycleHasIndirection g = true) :
+    sizeCycles g = [] := by
+  unfold sizeCycles
+  rw [List.filter_eq_nil_iff]
+  intro n _
+  obtain ⟨b, hb, hiff⟩ := cyclic_decides (valueDeps g) n
+  cases b with
+  | false => simp [hb]
+  | true =>
+    exact absurd (TC.mono (edge_holdsByValue g) (hiff.1 rfl)) (emitted_cycle_has_indirection_no_cycle g h n)
+
+/-! ### witness: a union that is NOT on a dependency cycle, held by value by a recursive struct
+
+`ReplyTarget = oneOf[$ref Comment, string]`; `Comment.in_reply_to` repeats that union inline and is typed
+`Option<ReplyTarget>` through the schema-identity cache.  The dependency graph has `Comment → Comment` and
+`ReplyTarget → Comment` only: the union is not flagged, and the by-value edge `Comment → ReplyTarget` is not a
+dependency edge at all (so `box_breaks_cycles` does not apply to it).  The ONE indirection on the emitted cycle is
+the `Box` of the variant, which the rule puts there because `Comment` is flagged. -/
+
+def nComment : Name := "Comment".toList
+def nReply : Name := "ReplyTarget".toList
+def strMember : S := .obj [] [] [] [] none none
+
+def replySchemas : List (Name × S) :=
+  [ (nComment, .obj [.obj [] [.ref nComment, strMember] [] [] none none] [] [] [] none none),
+    (nReply, .obj [] [.ref nComment, strMember] [] [] none none) ]
+
+theorem wit_reply_deps : depsOf replySchemas = [(nComment, [nComment]), (nReply, [nComment])] := by decide
+theorem wit_union_not_on_cycle : cyclic (depsOf replySchemas) nReply = some false := by decide
+theorem wit_struct_on_cycle : cyclic (depsOf replySchemas) nComment = some true := by decide
+theorem wit_variant_boxed : expectBoxed (depsOf replySchemas) false nComment = some true := by decide
+theorem wit_byvalue_edge_not_a_dep : nReply ∉ succ (depsOf replySchemas) nComment := by decide
+
+/-- as emitted: `struct Comment { in_reply_to: Option<ReplyTarget> }`, `enum ReplyTarget { Comment(Box<Comment>), String(String) }` -/
+def gReplyBoxed : EGraph := [(nComment, [⟨nReply, [.option]⟩]), (nReply, [⟨nComment, [.box]⟩])]
+/-- the variant payload held directly -/
+def gReplyFlat : EGraph := [(nComment, [⟨nReply, [.option]⟩]), (nReply, [⟨nComment, [.value]⟩])]
+
+theorem wit_reply_boxed_ok : emittedCycleHasIndirection gReplyBoxed = true ∧ sizeCycles gReplyBoxed = [] := by decide
+theorem cex_reply_flat : emittedCycleHasIndirection gReplyFlat = false ∧ sizeCycles gReplyFlat = [nComment, nReply] := by decide
+/-- the cycle itself, through the union that is not flagged -/
+theorem cex_reply_flat_cycle : OnCycle (HoldsByValue gReplyFlat) nComment :=
+  .step (b := nReply) ⟨(nComment, [nReply]), by decide, rfl, by decide⟩
+    (.base ⟨(nReply, [nComment]), by decide, rfl, by decide⟩)
+/-- wrappers nest: `Option<Vec<Box<T>>>` and `Vec<T>` are indirections, `Option<Option<T>>` is not -/
+theorem wit_via : (EEdge.mk nComment [.option, .vec, .box]).byValue = false ∧ (EEdge.mk nComment [.vec]).byValue = false ∧
+    (EEdge.mk nComment [.option, .option]).byValue = true ∧ (EEdge.mk nComment []).byValue = true := by decide
+
+/-! ## untagged unions: declaration order is matching order -/
+
+/-- the chosen variant is the FIRST one that accepts -/
+theorem chooseVariant_first (pre : List UVariant) (v : UVariant) (post : List UVariant) (keys : List Name)
+    (hpre : ∀ w ∈ pre, w.accepts keys = false) (hv : v.accepts keys = true) :
+    chooseVariant (pre ++ v :: post) keys = some v := by
+  unfold chooseVariant
+  induction pre with
+  | nil => simp [hv]
+  | cons w r ih =>
+    have hw : w.accepts keys = false := hpre w (List.mem_cons_self ..)
+    simp only [List.cons_append, List.find?, hw]
+    exact ih (fun x hx => hpre x (List.mem_cons_of_mem _ hx))
+
+/-- a document of member `v` (all its keys are members of `v`) survives whenever no variant declared before `v`
+accepts it: in particular in EVERY order when the members exclude each other through required members -/
+theorem keysPreserved_of_first (pre : List UVariant) (v : UVariant) (post : List UVariant) (keys : List Name)
+    (hpre : ∀ w ∈ pre, w.accepts keys = false) (hv : v.accepts keys = true)
+    (hk : keys.all v.wires.contains = true) : keysPreserved (pre ++ v :: post) keys = true := by
+  unfold keysPreserved
+  rw [chooseVariant_first pre v post keys hpre hv]
+  exact hk
+
+def vOperation : UVariant := { payload := "Operation".toList, required := ["op".toList], wires := ["op".toList, "left".toList, "right".toList] }
+def vConstant : UVariant := { payload := "Constant".toList, required := [], wires := ["value".toList, "unit".toList] }
+def opDoc : List Name := ["op".toList, "left".toList, "right".toList]
+
+/-- `Expr = anyOf[Operation, Constant]`, `Constant` without required members: in spec order the recursive document
+`{"op","left","right"}` is an `Operation` and comes back whole … -/
+theorem wit_permissive_last : keysPreserved [vOperation, vConstant] opDoc = true := by decide
+/-- … with the permissive member declared first it is read as an empty `Constant` and written back as `{}` -/
+theorem cex_permissive_first : keysPreserved [vConstant, vOperation] opDoc = false ∧
+    chooseVariant [vConstant, vOperation] opDoc = some vConstant := by decide
+theorem wit_expected_order : expectedVariantOrder ["Operation".toList, "Constant".toList] ["Constant".toList, "Operation".toList] =
+    ["Operation".toList, "Constant".toList] := by decide
+
 /-! ## non-vacuity: a mutually recursive pair `A ↔ B`, a self-loop `S`, and a leaf -/
 
 def nA : Name := ['A']
